@@ -355,13 +355,21 @@ var rc4 = []uint16{tls.TLS_RSA_WITH_RC4_128_SHA, tls.TLS_ECDHE_RSA_WITH_RC4_128_
 type reporter struct {
 	c    *vh.Ctx
 	seen map[string]int
+	wit  map[string]int
 }
 
 // at most 3 concrete witnesses per key; the total is counted in the evidence
 func (r *reporter) fail(key, what string, g *gen, got, want any) {
 	r.seen[key]++
-	r.c.Count("oracle_fail:" + key)
-	if r.seen[key] <= 3 {
+	r.c.Count("oracle_fail:" + key + "/" + g.wname)
+	// concrete witnesses: up to 2 with DefaultWeights and 1 with any other weights per key
+	slot := key + "|other"
+	lim := 1
+	if g.wname == "default" {
+		slot, lim = key+"|default", 2
+	}
+	r.wit[slot]++
+	if r.wit[slot] <= lim {
 		r.c.Fail(key, what, g.input(), got, want)
 	}
 }
@@ -631,11 +639,12 @@ var clients = []string{"Randomized", "Randomized-ALPN", "Randomized-NoALPN"}
 
 // seeds whose specs showed the two F-09 inconsistencies with DefaultWeights (always run)
 var corpus = []string{
-	"0000000000000000000000000000000000000000000000000000000000000000",
+	"c653211755d5ab29c11822d7711a97b3f1ff5b21f2485d9c86241fb56cdd6796", // X25519MLKEM768 share, group not listed
+	"eb1e5849c607484517e924aef78ae151c00755925836b7075885650c30ec29a3", // X25519MLKEM768 listed, no share
 }
 
 func run(c *vh.Ctx) {
-	r := &reporter{c: c, seen: map[string]int{}}
+	r := &reporter{c: c, seen: map[string]int{}, wit: map[string]int{}}
 	tb := &tables{rows: tls.VerifCipherSuiteRows(), tls13: tls.VerifDefaultCipherSuitesTLS13(), class: map[uint16]int{}}
 	for _, row := range tb.rows {
 		if row.TLS12 {
